@@ -4,6 +4,7 @@
    glue of devices/files.py) over the regenerated gen/Gen_locks.v (range test, limits, decision tables). *)
 From Coq Require Import ZArith List Bool Lia.
 From PCB Require Import lib.Result lib.PyInt gen.Gen_locks model.Locks proofs.Locks_proofs.
+From PCB Require Import model.RandomFile model.SharedFile proofs.RandomFile_proofs proofs.SharedFile_proofs.
 Import ListNotations.
 Open Scope Z_scope.
 
@@ -132,6 +133,40 @@ Proof.
   - exact holder_mode_table.
 Qed.
 Print Assumptions C26_tables_match_code.
+
+(* ================= locks and data together (model/SharedFile.v: lock table + shared file bytes) =========
+   FRAME: a GET/PUT of a record locked through another file number is refused AND leaves every file, every
+   FIELD buffer and every stream position exactly as they were (only the record pointer has moved) *)
+Theorem C26_denied_access_changes_nothing : forall put cs n pos this p m e2 r2,
+  0 < n <= 255 -> find n (st_files (c_st cs)) = Some this -> lp_mode this = MR -> check_pos pos = Ok p ->
+  NoDup (map fst (st_files (c_st cs))) ->
+  In (m, e2) (st_files (c_st cs)) -> m <> n -> lp_name e2 = lp_name this -> In r2 (lp_set e2) ->
+  in_range (accessed_record this p) r2 -> (is_oa (lp_mode e2) && negb put) = false ->
+  let cs' := fst (cstep cs (if put then CPut n pos else CGet n pos)) in
+  c_bytes cs' = c_bytes cs /\ c_bufs cs' = c_bufs cs /\ c_h cs' = c_h cs /\
+  (snd (cstep cs (if put then CPut n pos else CGet n pos)) = Err locks_err_PERMISSION_DENIED \/
+   snd (cstep cs (if put then CPut n pos else CGet n pos)) = Err locks_err_PATH_FILE_ACCESS_ERROR).
+Proof. exact locked_record_frame. Qed.
+Print Assumptions C26_denied_access_changes_nothing.
+
+(* the same for every refusal (ACCESS/LOCK clause, bad record number, bad file number, wrong mode) *)
+Theorem C26_refused_access_frame : forall put cs n pos,
+  snd (getput_stmt put (c_st cs) n pos) <> Ok tt ->
+  let cs' := fst (getput_c put cs n pos) in
+  c_bytes cs' = c_bytes cs /\ c_bufs cs' = c_bufs cs /\ c_h cs' = c_h cs /\
+  c_st cs' = fst (getput_stmt put (c_st cs) n pos) /\
+  (forall l, snd (getput_c put cs n pos) <> Ok l).
+Proof. exact refused_access_frame. Qed.
+Print Assumptions C26_refused_access_frame.
+
+(* CLOSE releases exactly the locks held through that file number *)
+Theorem C26_close_releases : forall cs n, 0 <= n <= 255 ->
+  let fs' := st_files (c_st (fst (cstep cs (CClose n)))) in
+  (forall nm r, ~ held fs' nm n r) /\
+  (forall nm m r, m <> n -> (held fs' nm m r <-> held (st_files (c_st cs)) nm m r)) /\
+  find n fs' = None.
+Proof. exact close_releases. Qed.
+Print Assumptions C26_close_releases.
 
 (* ---- defect D8 (fixed by fixes/D8.patch): the endpoint test that was in the code accepts a range that
    strictly contains a held one *)
